@@ -153,8 +153,9 @@ def r2(ctx):
               a.guard(fa[0][0]) == frozenset([frozenset()]), "each audit record draws exactly one sequence number from the engine's own counter",
               got=[render(x[2]) for x in fa], key="one-draw")
     rt = a.return_term()
-    ctx.check("Engine::audit", rt[0] == "agg" and "sequence: Sequence::fetch_add(self.meta.sequence)" in render(rt) and
-              "event: From::from(kind)" in render(rt), "the record carries the drawn number and the given payload", got=render(rt)[:200], key="record")
+    ctx.check("Engine::audit", render(rt) == "AuditTick::AuditTick{event: From::from(kind), context: EngineContext::EngineContext{sequence: "
+              "Sequence::fetch_add(self.meta.sequence), time: EngineClock::time(self.clock)}}",
+              "the record carries exactly the drawn number, the engine clock's time and the given payload", got=render(rt)[:240], key="record")
     s = ctx.fbody(name="audit_snapshot", self_adt=ENG, trait=AUD)
     ctx.check("Engine::audit_snapshot", render(s.return_term()) in ("Auditor::audit(self, self.state)", "Engine::audit(self, self.state)"),
               "the snapshot is an ordinary audit record of the current state (so it consumes the number preceding the first tick)",
@@ -303,10 +304,11 @@ def r5(ctx):
                 c = atoms.atom_cmp(a)
                 if c:
                     sk.append((c[0], render(c[1]), render(c[2])))
-        oks = any(op == "lt" and "state_replica.context.sequence" in l and "context.sequence" in r for op, l, r in sk)
+        oks = ("lt", "self.state_replica.context.sequence", "Iterator::next(self.updates).as:Some.0.context.sequence") in sk
         ctx.check("StateReplicaManager::run", oks, "a record is applied only if its sequence is greater than the replica's (older/equal: skipped)",
                   got=sk, key="skip-old")
-        ctx.check("StateReplicaManager::run", "audit.event" in render(upd[0][2][2][1]) or "event" in render(upd[0][2][2][1]),
+        ctx.check("StateReplicaManager::run", render(upd[0][2][2][1]) == "Iterator::next(self.updates).as:Some.0.event.as:Process.0.event" and
+                  render(val[0][2][2][1]) == "Iterator::next(self.updates).as:Some.0.context",
                   "the update applied is the record's own event", got=render(upd[0][2])[:200], key="own-event")
     v = ctx.fbody(name="validate_and_update_context", self_adt=SRM, trait="")
     st = v.stores()
@@ -351,7 +353,7 @@ def r6(ctx):
     for sbi, st, stm in snaps:
         arm = frozenset(a for conj in b.guard(sbi) for a in conj)
         mine = [s for s in spawns if b.dominates(sbi, s[0])]
-        ok = len(mine) >= 1 and render(stm[2][0]) in ("engine", "^engine", "_1.engine") or "engine" in render(stm[2][0])
+        ok = len(mine) >= 1 and render(stm[2][0]) in ("^self.engine", "mut[audit_snapshot](^self.engine)")
         n += 1
         ctx.check("SystemBuild::init_internal:snapshot@bb%d" % sbi, bool(mine) and ok,
                   "the snapshot is taken from the engine before that engine is moved into its runner task",
